@@ -186,4 +186,38 @@ theorem resolve2_append (t : Types) (x : Resource) (id s : Nat)
     ({ t with resources := t.resources ++ [x] } : Types).resolveResource 2 id = some s :=
   resolve_append t x 2 id s h
 
+/-- Shape of a successful `fromBytes`: the world is the last world of the collection and lists
+the converted imports and exports. -/
+theorem fromBytes_world (w : WTypes) (d : Decoded) (h : fromBytes w = .ok d) :
+    ∃ root st st' imports exports,
+      w.comps[w.root]? = some root ∧
+      topItems w w.fuel {} root.imports = .ok (st, imports) ∧
+      topItems w w.fuel st root.exports = .ok (st', exports) ∧
+      d.types.worlds[d.world]? =
+        some { id := none, uses := [], imports := collectMap imports, exports := collectMap exports } := by
+  unfold fromBytes at h
+  split at h
+  · cases h
+  · rename_i root hroot
+    simp only at h
+    split at h
+    · rename_i st imports himp
+      split at h
+      · rename_i st' exports hexp
+        simp only [addWorld, addInterface] at h
+        cases h
+        exact ⟨root, st, st', imports, exports, hroot, himp, hexp, by simp⟩
+      · cases h
+      · cases h
+    · cases h
+    · cases h
+
+theorem getElem?_append_lt' {α : Type} (l : List α) (x : α) (i : Nat) (a : α) (h : l[i]? = some a) :
+    (l ++ [x])[i]? = some a := by
+  have hi : i < l.length := by
+    rcases Nat.lt_or_ge i l.length with hlt | hge
+    · exact hlt
+    · rw [List.getElem?_eq_none hge] at h; cases h
+  rw [List.getElem?_append_left hi]; exact h
+
 end Wac.Decode
